@@ -66,12 +66,14 @@ func runC04(r *engine.Run) {
 	r.Rule("WHO-collect", "the trie's own store is written only by insertNode (PutNode, DeleteNode) and deleteNode (DeleteNode), and the change collector is fed only there; in insertNode the new node is put under GetHashBytes() of that node, every success return either passes AddChange(old, new) or is reached only when old and new hash are equal, and the replaced node is deleted under its own hash; deleteNode records the change before deleting")
 	r.Rule("ORDER-KEY-save", "UpdateChanges writes all new nodes with exactly one MultiPutNode call outside any loop and before any delete; keys[i] is GetHashBytes() of the very node stored in nodes[i], which is a copy of the change's New node; every DeleteNode is reached only with includeDeletes true; SaveChanges hands its own store and includeDeletes arguments through unchanged")
 	r.Rule("WHO-batch", "(*PNodeDB).MultiPutNode reaches RocksDB only through WriteBatch.Put inside the loop over keys (key i with the encoding of node i) and exactly one DB.Write of that batch after the loop; no direct DB.Put/PutCF/Delete")
+	r.Rule("DOM-cancel", "see C05: a re-created node never stays recorded as deleted (it would be dropped from the save or pruned while live)")
 	r.Rule("FRESH-node", "see C03: a pending change whose bytes are overwritten in place is saved under a hash that no longer matches it")
 	r.NotDec = append(r.NotDec, "completeness of the change set for every history (needs the map semantics of C01)", "RocksDB's own crash behaviour")
 	whoCollect(r)
 	orderKeySave(r)
 	whoBatch(r)
 	freshNode(r, "C04")
+	domCancel(r)
 }
 
 func whoCollect(r *engine.Run) {
